@@ -1663,13 +1663,14 @@ def repair(spec, keep, rng):
         if not faults:
             return spec
         where, c, a, kind, _ = faults[0]
+        in_mode = where == "mode"
         if where == "mode":
             where = "attr"
         if where == "robot":
             spec["rhints"] = [h for h in spec["rhints"] if h[0] != a]
             continue
         holder, key = None, None
-        for n, _, form in spec["rhints"]:
+        for n, _, form in ([] if in_mode else spec["rhints"]):      # a mode may be called like a component
             if n == c and form[0] == "comp":
                 holder, key = spec["comps"][form[1]], ("init" if where == "ctor" else "hints")
         if holder is None:
@@ -2126,9 +2127,12 @@ def shared_specs(rng, reps=1):
             for pat in SHARE_PATTERNS:
                 for rstate in SHARE_ROBOT:
                     n += 1
-                    sp = shared_spec(rng, mech, pat, rstate, ["object", "None", "falsy"][n % 3], embed=n % 2 == 1)
-                    nf = len(analyse(sp, INH_STATIC)["faults"])
-                    if (nf == 0) != (rstate != "unserved"):
+                    for attempt in range(4):     # the random robot it is embedded in may itself be beyond repair: try another, then none
+                        sp = shared_spec(rng, mech, pat, rstate, ["object", "None", "falsy"][n % 3], embed=n % 2 == 1 and attempt < 3)
+                        nf = len(analyse(sp, INH_STATIC)["faults"])
+                        if (nf == 0) == (rstate != "unserved"):
+                            break
+                    else:
                         raise AssertionError("shared family: %s %s %s has %d faults" % (mech, pat, rstate, nf))
                     out.append(sp)
     return out
